@@ -117,7 +117,7 @@ def main():
              "kind_free_text": "random API sequences against a build without the `enable` feature; counters are the observation"},
             {"name": "hostile", "path": "harness/hx/src/bin/hostile.rs", "serves_properties": ["C01", "C02", "C03", "C04", "C06", "C07", "C08", "C09", "C10", "C11"],
              "kind_free_text": "one-process-per-scenario hostile API use (limits, TLS teardown, pre-reporter, full ring, deep backlogs, id wrap, heap over identical rounds, big cycles); exit status and JSON are the observation"},
-            {"name": "plain", "path": "harness-plain/src/main.rs", "serves_properties": ["C01", "C03", "C04", "C06", "C07", "C08", "C13", "C14", "C18"],
+            {"name": "plain", "path": "harness-plain/src/main.rs", "serves_properties": ["C01", "C03", "C04", "C05", "C06", "C07", "C08", "C13", "C14", "C18"],
              "kind_free_text": "public-API-only scenarios against fastrace built with `enable` alone (no `verif` instrumentation): the feature set users build"},
             {"name": "progsim", "path": "harness/hx/src/bin/progsim.rs", "serves_properties": sorted(p for p in claimed if "progsim" in CHECKS[p][0]),
              "kind_free_text": "random and template span-API programs on real threads under a baton scheduler, collector stepped through hook points, shadow-model oracles"},
